@@ -87,6 +87,23 @@ def _solve1(smt2, timeout_ms, want_model, second_opinion=True, seed=None):
     return ("unknown", reason, time.time() - t, "z3+cvc5")
 
 
+def _pool_map(fn, jobs, procs, chunksize, per_job_s):
+    """pool.map with a HARD limit per result: a solver call that does not honour its own timeout must not hang the check.  A job whose
+    result does not arrive in time is `unknown` (undecided - never a violation); the pool is torn down at the end either way."""
+    out = []
+    with mp.get_context("fork").Pool(min(procs, len(jobs))) as pool:
+        it = pool.imap(fn, jobs, chunksize=chunksize)
+        for k in range(len(jobs)):
+            try:
+                out.append(it.next(timeout=per_job_s * chunksize))
+            except mp.TimeoutError:
+                out.append(("unknown", "hard time limit: the solver process did not return", float(per_job_s), "none"))
+            except StopIteration:
+                out.append(("unknown", "solver pool ended early", 0.0, "none"))
+        pool.terminate()
+    return out
+
+
 def discharge_all(run, obs, timeout_ms=20000, procs=None, on_sat=None):
     """obs: list of Ob. Folds into run; returns list of (Ob, status, detail)."""
     procs = procs or min(16, os.cpu_count() or 4)
@@ -106,8 +123,7 @@ def discharge_all(run, obs, timeout_ms=20000, procs=None, on_sat=None):
     if len(jobs) <= 2 or os.environ.get("VERIF_SERIAL"):
         out_ = [_solve(j) for j in jobs]
     else:
-        with mp.get_context("fork").Pool(min(procs, len(jobs))) as pool:
-            out_ = pool.map(_solve, jobs, chunksize=8 if len(jobs) > 2000 else 1)
+        out_ = _pool_map(_solve, jobs, procs, 8 if len(jobs) > 2000 else 1, timeout_ms / 1000 * 3 + 240)
     for k, r in zip(todo, out_):
         res[k] = r
     # second chance for obligations the solvers left open within the budget (a busy machine or an unlucky instantiation order must not
@@ -116,8 +132,8 @@ def discharge_all(run, obs, timeout_ms=20000, procs=None, on_sat=None):
     again = [k for k in todo if res[k][0] == "unknown" and not obs[k].expect_sat]
     if again and not os.environ.get("VERIF_NO_RETRY"):
         jobs2 = [(obs[k].smt2, timeout_ms, True) for k in again]
-        with mp.get_context("fork").Pool(min(4, len(jobs2))) as pool:          # always in child processes: the seed is a global parameter
-            out2 = pool.map(_solve_portfolio, jobs2, chunksize=1)
+        # always in child processes: the seed is a global parameter
+        out2 = _pool_map(_solve_portfolio, jobs2, 4, 1, timeout_ms / 1000 * 4 + 240)
         for k, r in zip(again, out2):
             if r[0] != "unknown":
                 res[k] = (r[0], r[1], res[k][2] + r[2], r[3] + " (second attempt)")
@@ -198,7 +214,46 @@ def discharge_all(run, obs, timeout_ms=20000, procs=None, on_sat=None):
     return out
 
 
+def _decides_within(fn, seconds):
+    """run fn() -> bool in a forked child with a HARD time limit (z3's own `timeout` is not always honoured inside quantifier / nonlinear
+    reasoning - a self-test run sat 26 minutes in one check()).  -> True / False / None (limit hit or child died)"""
+    ctx = mp.get_context("fork")
+    rd, wr = ctx.Pipe(duplex=False)
+
+    def child():
+        try:
+            wr.send(bool(fn()))
+        except Exception:
+            wr.send(None)
+        finally:
+            wr.close()
+    pr = ctx.Process(target=child, daemon=True)
+    pr.start()
+    wr.close()
+    got = None
+    if rd.poll(seconds):
+        try:
+            got = rd.recv()
+        except EOFError:
+            got = None
+    if pr.is_alive():
+        pr.kill()
+    pr.join(5)
+    rd.close()
+    return got
+
+
 def small_scope_counterexample(o, timeout_ms=15000, max_exp=16):
+    """hard-limited front: the search runs first in a child process that only reports whether it found a model; only then is it
+    repeated here (seconds, it has just succeeded) to obtain the model object over the original terms for the replay"""
+    n_hints = max(1, len(list(o.hint_terms)))
+    found = _decides_within(lambda: _small_scope_counterexample(o, timeout_ms, max_exp) is not None, n_hints * timeout_ms / 1000 + 20)
+    if not found:
+        return None
+    return _small_scope_counterexample(o, timeout_ms, max_exp)
+
+
+def _small_scope_counterexample(o, timeout_ms=15000, max_exp=16):
     """For an obligation the solvers left `unknown`: search for a counter-model in a small scope.
     pow2 is replaced by its exact table on 0..max_exp and the quantified pow2/ceil_log2 axioms are dropped; every model
     found is checked to use pow2 only inside the table, so a `sat` here is a genuine counter-model of the obligation.
